@@ -162,6 +162,20 @@ func (g *hdGen) message(c int) hdOp {
 		k = "ctl"
 	}
 	o := hdOp{K: k, C: c, To: g.recipient(), Tag: g.nextTag()}
+	if g.opts.virtual && len(g.vroom) > 0 && g.r.chance(30) {
+		// to a virtual session that was added (it may have been removed or replaced since), half of the time from the
+		// internal client it belongs to, otherwise from whoever is sending: another internal client, an ordinary session
+		var keys [][2]int
+		for k := range g.vroom {
+			keys = append(keys, k)
+		}
+		sort.Slice(keys, func(i, j int) bool { return keys[i][0] < keys[j][0] || (keys[i][0] == keys[j][0] && keys[i][1] < keys[j][1]) })
+		key := pick(g.r, keys)
+		o.To = &hdRecipient{T: "session", Id: &hdIdRef{T: "vpub", C: key[0], V: key[1]}}
+		if _, ok := g.auth[key[0]]; ok && !g.blocked[key[0]] && g.r.chance(50) {
+			o.C = key[0]
+		}
+	}
 	if g.r.chance(15) {
 		o.FS = g.pickConn()
 	}
